@@ -25,7 +25,17 @@ def is_F16c(exc):
     """Known finding F16c: a window for which the library schedules no season raises IndexError
     while indexing the empty list of planting years / dates in read_model_parameters."""
     fn, line, func = innermost_repo_frame(exc)
-    return isinstance(exc, IndexError) and func == "read_model_parameters"
+    if not isinstance(exc, IndexError):
+        return False
+    if func == "read_model_parameters":
+        return True
+    # second site of the same root cause: a thermal-time crop without a harvest date -- the degree-day series from
+    # the first planting date AFTER the window is empty when read_model_parameters asks for the crop calendar
+    if func == "compute_crop_calendar" and "size 0" in str(exc):
+        import traceback as _tb
+
+        return any(fr.name == "read_model_parameters" for fr in _tb.extract_tb(exc.__traceback__))
+    return False
 
 
 def observe(cfg, capture=(), res=None, **kw):
